@@ -93,6 +93,22 @@ def run_scenario(scenario, seed, monitors=(), trace=False, settle=None, worker_h
             rec = w.api.call(node, action, params)
             res.start_calls.append((ex, rec))
         sim.call_at(t0 + ex.get("at", 0.0), launch, None, kind="client", label="start%d" % i)
+    for k, fl in enumerate(scenario.get("faults") or []):
+        def fire(fl=fl):
+            node = w.nodes[fl.get("node", 0) % len(w.nodes)]
+            if fl["kind"] == "stall":
+                if not node.dead:
+                    node.stall(fl["duration"])
+                    sim.log("FAULT", "stall", node.name, fl["duration"])
+            elif fl["kind"] == "crash":
+                if not node.dead:
+                    node.crash("fault")
+                    node.teardown()
+            elif fl["kind"] == "restart":
+                if node.dead:
+                    node.restart()
+                    sim.count("restart")
+        sim.call_at(t0 + fl["at"], fire, None, kind="fault", label=fl["kind"])
     if before_run is not None:
         before_run(res)
     res.end_reason = w.run_quiescent(limit=horizon)
